@@ -20,6 +20,7 @@ import (
 	"context"
 	"crypto"
 	"crypto/rsa"
+	"crypto/tls"
 	"crypto/x509"
 	"fmt"
 	"net"
@@ -758,6 +759,10 @@ func (c *c) GetTLSSecretContent(secretName string) (*acme.TLSSecret, error) {
 	x509, err := c.sslCerts.checkValidCertPEM(pemCrt)
 	if err != nil {
 		return nil, fmt.Errorf("error validating x509 certificate: %w", err)
+	}
+	// a certificate without its private key cannot be used by haproxy
+	if _, err := tls.X509KeyPair(pemCrt, secret.Data[api.TLSPrivateKeyKey]); err != nil {
+		return nil, fmt.Errorf("error validating x509 key pair: %w", err)
 	}
 	return &acme.TLSSecret{
 		Crt: x509,
